@@ -780,3 +780,642 @@ def oracle_C12(lines, impl):
 
 
 GENERATORS.update({"C05": gen_C05, "C04": gen_C04, "C10": gen_C10, "C11": gen_C11, "C12": gen_C12})
+
+
+# =========================================================================== motion profiles (C06, C07)
+HARNESS_BIN = None   # set by check.py once the default harness is built
+
+
+def mp_inputs(rng):
+    """(start, end, max_vel, max_acc) tokens; mostly accepted moves, some rejected"""
+    r = rng.random()
+    vmax = math.exp(rng.uniform(math.log(1e-2), math.log(1e3)))
+    amax = math.exp(rng.uniform(math.log(1e-2), math.log(1e3)))
+    p0 = rng.uniform(-1e4, 1e4) if rng.random() < 0.7 else float(rng.randint(-50, 50))
+    dacc = vmax * vmax / amax
+    if r < 0.75:
+        disp = rng.choice([-1, 1]) * (dacc * rng.uniform(1.05, 4) + rng.uniform(0, 10))
+    elif r < 0.85:
+        disp = rng.choice([-1, 1]) * dacc * rng.uniform(0.0, 0.95)     # too short: rejected
+    else:
+        disp = rng.uniform(-1e3, 1e3)
+    p1 = p0 + disp
+    sgn = -1.0 if p1 < p0 else 1.0
+    v0 = rng.choice([0.0, 0.0, sgn * vmax * rng.uniform(0, 1), sgn * vmax, -sgn * vmax * rng.uniform(0, 0.5), rng.uniform(-2, 2) * vmax])
+    v1 = rng.choice([0.0, 0.0, 0.0, sgn * vmax * rng.uniform(0, 1), rng.uniform(-1.5, 1.5) * vmax])
+    a0 = rng.choice([0.0, 0.0, rng.uniform(-1, 1)])
+    a1 = rng.choice([0.0, 0.0, 0.0, rng.uniform(-1, 1)])
+    sv = rng.choice([1, 1, 1, -1])  # limits may be given negative: abs() is taken
+    return (state(p0, v0, a0), state(p1, v1, a1), q(sv * vmax, 1, -1), q(sv * amax, 1, -2))
+
+
+def mp_boundaries(lines):
+    """run the real constructor to learn t1,t2,t3 (private fields, printed by the harness from Debug)"""
+    if not HARNESS_BIN:
+        return [None] * len(lines)
+    import subprocess
+    out = subprocess.run([HARNESS_BIN], input="\n".join(lines) + "\n", capture_output=True, text=True).stdout.split("\n")
+    res = []
+    for o in out[:len(lines)]:
+        toks = o.split(" ")
+        if len(toks) >= 3 and all(t.startswith("T:") for t in toks[:3]):
+            res.append(tuple(int(t[2:]) for t in toks[:3]))
+        else:
+            res.append(None)
+    return res
+
+
+def query_times(rng, b, dense):
+    ts = [-1, 0, 1, I64_MIN, I64_MAX, -10 ** 12, rng.randint(-10 ** 6, -1)]
+    if b:
+        t1, t2, t3 = b
+        for x in (t1, t2, t3):
+            ts += [x - 1, x, x + 1]
+        ts += [t1 // 2, (t1 + t2) // 2, (t2 + t3) // 2, t3 + 10 ** 9, t3 * 3 + 7]
+        for _ in range(dense):
+            ts.append(rng.randint(0, max(1, t3)))
+    else:
+        ts += [10 ** 9, 10 ** 10]
+    return ts
+
+
+def neg_state(tok):
+    p, v, a = tok.split("/")
+    flip = lambda h: "%08x" % (int(h, 16) ^ 0x80000000)
+    return "%s/%s/%s" % (flip(p), flip(v), a)
+
+
+def gen_mp(rng, tier, dense, pid):
+    rel = []
+    ins = [mp_inputs(rng) for _ in range(n_of(tier, 400, 3000))]
+    # fixed regression/corner inputs
+    ins.append((state(0.0, 0.0, 0.0), state(3.0, 0.0, 0.0), q(0.1, 1, -1), q(0.01, 1, -2)))
+    ins.append((state(0.0, 0.0, 0.0), state(-3.0, 0.0, 0.0), q(0.1, 1, -1), q(0.01, 1, -2)))
+    ins.append((state(0.0, 0.1, 0.0), state(0.0, 0.1, 0.0), q(0.1, 1, -1), q(0.01, 1, -2)))      # zero displacement (F5)
+    ins.append((state(0.0, -0.1, 0.0), state(0.0, -0.1, 0.0), q(0.1, 1, -1), q(0.01, 1, -2)))
+    ins.append((state(1.0, 0.0, 0.0), state(1.0, 0.0, 0.0), q(0.1, 1, -1), q(0.01, 1, -2)))
+    ins.append((state(0.0, 0.0, 0.0), state(3.0, 0.0, 0.0), q(0.1, 1, -1), q(0.0, 1, -2)))       # zero acceleration
+    ins.append((state(0.0, 0.0, 0.0), state(3.0, 0.0, 0.0), q(0.1, 1, 0), q(0.01, 1, -2)))       # wrong unit
+    ins.append((state(0.0, 0.0, 0.0), state(3.0, 0.0, 0.0), q(0.1, 1, -1), q(0.01, 1, -1)))      # wrong unit
+    heads = ["mp %s %s %s %s" % t for t in ins]
+    bs = mp_boundaries(heads)
+    L = []
+    for h, b, t in zip(heads, bs, ins):
+        ts = query_times(rng, b, dense)
+        ia = len(L)
+        L.append(h + " " + " ".join(str(x) for x in ts))
+        # mirror symmetry: negate all positions and velocities. Only for states whose acceleration fields are zero
+        # (a non-zero end acceleration becomes the end command unchanged, so "every output is negated" cannot be
+        # meant for those inputs)
+        if pid == "C07" and t[0].endswith("/00000000") and t[1].endswith("/00000000"):
+            rel.append(("mirror", ia, len(L), None))
+            L.append("mp %s %s %s %s %s" % (neg_state(t[0]), neg_state(t[1]), t[2], t[3], " ".join(str(x) for x in ts)))
+    RELATIONS[pid] = rel
+    return L
+
+
+def gen_C06(rng, tier):
+    return gen_mp(rng, tier, 4, "C06")
+
+
+def gen_C07(rng, tier):
+    return gen_mp(rng, tier, n_of(tier, 24, 120), "C07")
+
+
+def parse_mp_tok(tok):
+    """piece/mode/acc/vel/pos/hist -> dict"""
+    parts = tok.split("/")
+    if len(parts) != 6:
+        return None
+    def qv(x):
+        return None if x == "none" else h2f(x.split(":")[1])
+    return {"piece": parts[0], "mode": parts[1], "acc": qv(parts[2]), "vel": qv(parts[3]), "pos": qv(parts[4]), "hist": parts[5],
+            "raw": parts}
+
+
+def flip_q(x):
+    if x == "none":
+        return x
+    a = x.split(":")
+    if a[1] == "nan":
+        return x
+    a[1] = "%08x" % (int(a[1], 16) ^ 0x80000000)
+    return ":".join(a)
+
+
+def flip_cmd_datum(x):
+    if x == "none":
+        return x
+    t, c = x.split("@")
+    if c[1:] == "nan":
+        return x
+    return "%s@%s%08x" % (t, c[0], int(c[1:], 16) ^ 0x80000000)
+
+
+def oracle_C06(lines, impl):
+    """structural agreement of the six accessors on the implementation's own outputs"""
+    bad = []
+    order = {"BS": 0, "IA": 1, "CV": 2, "EA": 3, "CO": 4}
+    for c, o in zip(lines, impl):
+        if not c.startswith("mp ") or "PANIC" in o or o in ("NOIMPL", "BADLINE"):
+            continue
+        ct = c.split(" ")
+        ts = [int(x) for x in ct[5:]]
+        toks = o.split(" ")
+        if len(toks) != 5 + len(ts):
+            continue
+        t1, t2, t3 = (int(x[2:]) for x in toks[:3])
+        if not (0 <= t1 <= t2 <= t3):
+            bad.append((c, "constructor returned t1,t2,t3 = %d,%d,%d not ordered" % (t1, t2, t3)))
+            continue
+        endcmd = toks[4]
+        seq = sorted(zip(ts, toks[5:]))
+        lastrank = -1
+        for t, tk in seq:
+            d = parse_mp_tok(tk)
+            if d is None:
+                bad.append((c, "malformed accessor token")); break
+            r = order[d["piece"]]
+            if r < lastrank:
+                bad.append((c, "pieces go back as t grows at t=%d" % t)); break
+            lastrank = r
+            neg = t < 0
+            if (d["piece"] == "BS") != neg or (d["mode"] == "none") != neg or (d["raw"][2] == "none") != neg or (d["hist"] == "none") != neg:
+                bad.append((c, "before-start/absent accessors disagree with t<0 at t=%d: %s" % (t, tk))); break
+            if neg:
+                continue
+            want_mode = {"IA": "A", "CV": "V", "EA": "A", "CO": endcmd[0]}[d["piece"]]
+            if d["mode"] != want_mode:
+                bad.append((c, "mode %s does not match piece %s at t=%d" % (d["mode"], d["piece"], t))); break
+            if d["piece"] != "CO" and (d["raw"][3] == "none" or d["raw"][4] == "none"):
+                bad.append((c, "velocity/position absent during the move at t=%d" % t)); break
+            if d["piece"] == "CO":
+                if (d["raw"][3] != "none") != (endcmd[0] in "PV") or (d["raw"][4] != "none") != (endcmd[0] == "P"):
+                    bad.append((c, "presence after completion does not follow the end command at t=%d" % t)); break
+            ht, hc = d["hist"].split("@")
+            src = {"A": d["raw"][2], "V": d["raw"][3], "P": d["raw"][4]}[d["mode"]]
+            if int(ht) != t or hc[0] != d["mode"] or src == "none" or hc[1:] != src.split(":")[1]:
+                bad.append((c, "history %s is not the matching accessor %s stamped with t=%d" % (d["hist"], src, t))); break
+            if d["piece"] == "CO" and hc != endcmd and not (hc[1:] == "nan"):
+                bad.append((c, "history after completion %s is not the end command %s" % (hc, endcmd))); break
+    return bad
+
+
+def oracle_C07(lines, impl):
+    """numeric trapezoid checks with generous tolerances + exact mirror symmetry, on the implementation's outputs"""
+    bad = []
+    parsed = {}
+    for k, (c, o) in enumerate(zip(lines, impl)):
+        if not c.startswith("mp ") or "PANIC" in o or o in ("NOIMPL", "BADLINE"):
+            continue
+        ct = c.split(" ")
+        ts = [int(x) for x in ct[5:]]
+        toks = o.split(" ")
+        if len(toks) != 5 + len(ts):
+            continue
+        t1, t2, t3 = (int(x[2:]) for x in toks[:3])
+        p0, v0, _ = [h2f(x) for x in ct[1].split("/")]
+        p1, v1, _ = [h2f(x) for x in ct[2].split("/")]
+        vmax = abs(h2f(ct[3].split(":")[1])); amax = abs(h2f(ct[4].split(":")[1]))
+        a = h2f(toks[3].split(":")[1])
+        parsed[k] = toks
+        if any(x != x or abs(x) == float("inf") for x in (p0, v0, p1, v1, vmax, amax, a)):
+            continue
+        sign = -1.0 if p1 < p0 else 1.0
+        if a != sign * amax and not (a == 0 and amax == 0):
+            bad.append((c, "signed max acceleration %r is not sign(displacement)*|max_acc| = %r" % (a, sign * amax))); continue
+        scale = max(abs(p0), abs(p1), abs(v0) * t3 / 1e9, vmax * t3 / 1e9, 1.0)
+        vscale = max(vmax, abs(v0), abs(v1), 1e-3)
+        eps = 2.0 ** -23
+        pts = sorted((t, parse_mp_tok(tk)) for t, tk in zip(ts, toks[5:]) if 0 <= t <= t3 + 1)
+        prev = None
+        for t, d in pts:
+            if d is None or d["piece"] == "CO":
+                continue
+            if d["acc"] not in (a, 0.0, -a):
+                bad.append((c, "acceleration %r at t=%d is not ±max_acc or 0" % (d["acc"], t))); break
+            if abs(d["vel"]) > max(vmax, abs(v0), abs(v1)) * (1 + 1e-3) + 1e-6 + 64 * eps * (t3 / 1e9) * amax:
+                bad.append((c, "speed %r at t=%d exceeds the limit" % (d["vel"], t))); break
+            if t == 0 and (abs(d["vel"] - v0) > 64 * eps * vscale or abs(d["pos"] - p0) > 64 * eps * scale):
+                bad.append((c, "profile does not start at the start state: v=%r p=%r" % (d["vel"], d["pos"]))); break
+            if prev is not None:
+                tp, dp = prev
+                dt = (t - tp) / 1e9
+                # position is the integral of velocity (trapezoid exact for piecewise-linear v within a piece)
+                if dp["piece"] == d["piece"]:
+                    want = dt * (dp["vel"] + d["vel"]) / 2
+                    got = d["pos"] - dp["pos"]
+                    if abs(got - want) > 4096 * eps * scale + 1e-4 * abs(want):
+                        bad.append((c, "position is not the integral of velocity between t=%d and t=%d: %r vs %r" % (tp, t, got, want))); break
+                # continuity: over 1-2 ns nothing can jump
+                if t - tp <= 2 and (abs(d["vel"] - dp["vel"]) > 256 * eps * vscale + abs(a) * 4e-9 or abs(d["pos"] - dp["pos"]) > 4096 * eps * scale):
+                    bad.append((c, "discontinuity between t=%d and t=%d: v %r->%r p %r->%r" % (tp, t, dp["vel"], d["vel"], dp["pos"], d["pos"]))); break
+            prev = (t, d)
+        else:
+            # arrival: just before completion the profile is at the goal (tolerance: ns truncation + rounding)
+            lastmove = [x for x in pts if x[1] is not None and x[1]["piece"] != "CO" and x[0] >= t3 - 1]
+            if lastmove and t3 > 0:
+                t, d = lastmove[-1]
+                # the phase durations are f32 seconds: their rounding error (eps * t3) times the slope is the
+                # magnitude the property's "tolerance proportional to f32 epsilon times the magnitudes involved" allows
+                t3s = t3 / 1e9
+                tolp = 1e-3 * max(abs(p1 - p0), 1.0) + 4096 * eps * scale + 64 * eps * t3s * vscale
+                tolv = 1e-3 * vscale + 64 * eps * t3s * amax
+                if abs(d["pos"] - p1) > tolp or abs(d["vel"] - v1) > tolv:
+                    bad.append((c, "does not arrive: at t3-1ns p=%r (goal %r) v=%r (goal %r)" % (d["pos"], p1, d["vel"], v1)))
+    for (kind, ia, ib, _) in RELATIONS.get("C07", []):
+        if kind != "mirror" or ia not in parsed or ib >= len(impl):
+            continue
+        A = parsed[ia]
+        if ib not in parsed:
+            bad.append((lines[ia], "mirror: the negated move is rejected/panics while the move is accepted")); continue
+        B = parsed[ib]
+        def negq(x, y):   # y is the exact negation of x as a number (-0 == +0)
+            if x == "none" or y == "none":
+                return x == y
+            a, b = x.split(":"), y.split(":")
+            if a[2] != b[2]:
+                return False
+            if a[1] == "nan" or b[1] == "nan":
+                return a[1] == b[1]
+            return h2f(a[1]) == -h2f(b[1])
+        def negc(x, y):
+            if x == "none" or y == "none":
+                return x == y
+            (ta, ca), (tb, cb) = x.split("@"), y.split("@")
+            if ta != tb or ca[0] != cb[0]:
+                return False
+            if ca[1:] == "nan" or cb[1:] == "nan":
+                return ca[1:] == cb[1:]
+            return h2f(ca[1:]) == -h2f(cb[1:])
+        ok = A[:3] == B[:3] and negq(A[3], B[3])
+        if ok:
+            for x, y in zip(A[5:], B[5:]):
+                xa, ya = x.split("/"), y.split("/")
+                if xa[0] != ya[0] or xa[1] != ya[1] or not all(negq(u, v) for u, v in zip(xa[2:5], ya[2:5])) or not negc(xa[5], ya[5]):
+                    ok = False; break
+        if not ok:
+            bad.append((lines[ia], "negating all positions and velocities does not negate every output exactly"))
+    return bad
+
+
+# =========================================================================== devices (C08, C09, C13, C16, C20)
+def datum_state(rng, t=None):
+    return "%d@%s" % (rng.randint(-10 ** 6, 10 ** 6) if t is None else t, mkstate(rng))
+
+
+def datum_cmd(rng, t):
+    return "%d@%s%s" % (t, rng.choice("PVA"), mkf(rng))
+
+
+def rand_ratio(rng):
+    return f2h(rng.choice([-1, 1]) * math.exp(rng.uniform(math.log(1e-2), math.log(1e2))))
+
+
+def device_setups(rng):
+    """(setup token, number of terminals) for each device kind"""
+    yield "inv", 2
+    yield "gear:" + rand_ratio(rng), 2
+    yield "geart:" + "+".join(f2h(float(rng.randint(5, 60))) for _ in range(rng.randint(2, 6))), 2
+    yield "axle:%d" % rng.randint(0, 6), None
+    for m in ("S1", "S2", "SU", "EQ"):
+        yield "diff:" + m, 3
+    yield "diffnew", 3
+
+
+def gen_devices(rng, tier, with_cmds, with_states):
+    L = []
+    reps = n_of(tier, 25, 150)
+    for _ in range(reps):
+        for setup, nt in device_setups(rng):
+            if nt is None:
+                nt = int(setup.split(":")[1])
+            # every subset of terminals having / lacking data; externals connected or not
+            for mask in (range(2 ** nt) if nt <= 3 else [rng.randrange(2 ** nt) for _ in range(6)]):
+                nfree = nt
+                ops = []
+                t = rng.randint(-10 ** 9, 10 ** 9)
+                conn = [rng.random() < 0.5 for _ in range(nt)]
+                for i in range(nt):
+                    if conn[i]:
+                        ops.append("c:%d:%d" % (i, nt + i))
+                rounds = rng.randint(1, n_of(tier, 4, 8))
+                times = rng.sample(range(1, 10 ** 6), 4 * nt * rounds + 4)
+                for rd in range(rounds):
+                    for i in range(nt):
+                        has = (mask >> i) & 1 if rd == 0 else rng.random() < 0.5
+                        if has and with_states:
+                            tgt = nt + i if (conn[i] and rng.random() < 0.6) else i
+                            ops.append("ss:%d:%s" % (tgt, datum_state(rng, t + times.pop())))
+                        if with_cmds and rng.random() < (0.5 if rd == 0 else 0.3):
+                            tgt = nt + i if (conn[i] and rng.random() < 0.6) else i
+                            ops.append("sc:%d:%s" % (tgt, datum_cmd(rng, t + times.pop())))
+                    ops.append("u:0")
+                    ops.append("oa")
+                    ops.append("ra")
+                L.append("dv %s free:%d -- %s" % (setup, nfree, " ".join(ops)))
+    # constructor corner cases
+    L.append("dv geart:41200000 --")
+    for (m, s) in GRID:
+        L.append("dv gearq:%s -- ss:0:1@%s u:0 oa" % (q(2.0, m, s), mkstate(rng)))
+    return L
+
+
+def gen_C08(rng, tier):
+    return gen_devices(rng, tier, with_cmds=False, with_states=True)
+
+
+def gen_C13(rng, tier):
+    L = gen_devices(rng, tier, with_cmds=True, with_states=rng.random() < 0.5)
+    # chains of 1..5 devices joined by connected terminals; command issued at one end; updated in order
+    for _ in range(n_of(tier, 150, 1000)):
+        n = rng.randint(1, 5)
+        setup = []
+        nt = 0
+        firsts, lasts = [], []
+        for _ in range(n):
+            kind = rng.choice(["inv", "gear", "axle"])
+            if kind == "inv":
+                setup.append("inv"); firsts.append(nt); lasts.append(nt + 1); nt += 2
+            elif kind == "gear":
+                setup.append("gear:" + rand_ratio(rng)); firsts.append(nt); lasts.append(nt + 1); nt += 2
+            else:
+                k = rng.randint(2, 4)
+                setup.append("axle:%d" % k); firsts.append(nt); lasts.append(nt + k - 1); nt += k
+        ops = []
+        for d in range(n - 1):
+            ops.append("c:%d:%d" % (lasts[d], firsts[d + 1]))
+        t = rng.randint(0, 10 ** 9)
+        for rd in range(rng.randint(1, 3)):
+            t += rng.randint(1, 10 ** 6)
+            src = rng.choice([firsts[0], lasts[-1]])
+            ops.append("sc:%d:%s" % (src, datum_cmd(rng, t)))
+            order = range(n) if src == firsts[0] else reversed(range(n))
+            for d in order:
+                ops.append("u:%d" % d)
+            ops.append("ra")
+        L.append("dv %s -- %s" % (" ".join(setup), " ".join(ops)))
+    return L
+
+
+def matchings_bfs(n):
+    """every reachable matching of n terminals with a shortest op path to it"""
+    start = tuple([None] * n)
+    seen = {start: []}
+    todo = [start]
+    while todo:
+        m = todo.pop(0)
+        for op in all_ops(n):
+            m2 = apply_op(m, op)
+            if m2 not in seen:
+                seen[m2] = seen[m] + [op]
+                todo.append(m2)
+    return seen
+
+
+def all_ops(n):
+    return [("c", i, j) for i in range(n) for j in range(n) if i != j] + [("x", i) for i in range(n)]
+
+
+def apply_op(m, op):
+    m = list(m)
+    def dis(i):
+        p = m[i]
+        if p is not None:
+            m[p] = None; m[i] = None
+    if op[0] == "x":
+        dis(op[1])
+    else:
+        dis(op[1]); dis(op[2]); m[op[1]] = op[2]; m[op[2]] = op[1]
+    return tuple(m)
+
+
+def op_tok(op):
+    return "c:%d:%d" % (op[1], op[2]) if op[0] == "c" else "x:%d" % op[1]
+
+
+def gen_C09(rng, tier):
+    L = []
+    maxn = n_of(tier, 5, 6)
+    for n in range(2, maxn + 1):
+        reach = matchings_bfs(n)
+        for m, path in reach.items():
+            for op in all_ops(n):
+                pre = []
+                for i in range(n):
+                    if rng.random() < 0.8:
+                        pre.append("ss:%d:%s" % (i, datum_state(rng)))
+                    if rng.random() < 0.6:
+                        pre.append("sc:%d:%s" % (i, datum_cmd(rng, rng.choice([5, 6, 7, rng.randint(-100, 100)]))))
+                L.append("dv free:%d -- %s" % (n, " ".join(pre + [op_tok(o) for o in path] + ["ra", op_tok(op), "ra"])))
+    # random longer sequences, more terminals
+    for _ in range(n_of(tier, 300, 3000)):
+        n = rng.randint(2, n_of(tier, 6, 8))
+        ops = []
+        for _ in range(rng.randint(4, 30)):
+            r = rng.random()
+            if r < 0.45:
+                i, j = rng.sample(range(n), 2)
+                ops.append("c:%d:%d" % (i, j))
+            elif r < 0.6:
+                ops.append("x:%d" % rng.randrange(n))
+            elif r < 0.75:
+                ops.append("ss:%d:%s" % (rng.randrange(n), datum_state(rng)))
+            elif r < 0.88:
+                ops.append("sc:%d:%s" % (rng.randrange(n), datum_cmd(rng, rng.randint(-50, 50))))
+            else:
+                ops.append("ra")
+        L.append("dv free:%d -- %s ra" % (n, " ".join(ops)))
+    # read semantics: all own/partner presence combinations, timestamp orders incl. ties
+    for (t1, t2) in [(1, 2), (2, 2), (3, 2), (I64_MIN, I64_MAX), (-5, -5)]:
+        for so in (0, 1):
+            for sp in (0, 1):
+                for co in (0, 1):
+                    for cp in (0, 1):
+                        ops = ["c:0:1"]
+                        if so: ops.append("ss:0:%s" % datum_state(rng, t1))
+                        if sp: ops.append("ss:1:%s" % datum_state(rng, t2))
+                        if co: ops.append("sc:0:%s" % datum_cmd(rng, t1))
+                        if cp: ops.append("sc:1:%s" % datum_cmd(rng, t2))
+                        L.append("dv free:2 -- %s ra x:1 ra" % " ".join(ops))
+    # regression for the repaired defect F2: connect twice
+    L.append("dv free:2 -- c:0:1 c:0:1 ra c:1:0 ra")
+    L.append("dv free:3 -- c:0:1 c:0:2 ra c:2:1 ra")
+    return L
+
+
+def oracle_C09(lines, impl):
+    """no panic for distinct terminals; links symmetric as far as reads reveal (two connected terminals read the same state)"""
+    bad = []
+    for c, o in zip(lines, impl):
+        if not c.startswith("dv free:") or " -- " not in c:
+            continue
+        ops = c.split(" -- ")[1].split(" ")
+        if "PANIC" in o:
+            if not any(x.startswith("c:") and x.split(":")[1] == x.split(":")[2] for x in ops):
+                bad.append((c, "connect/disconnect panicked: " + o.split(" ")[-1]))
+            continue
+    return bad
+
+
+def gen_C20(rng, tier):
+    L = []
+    for _ in range(n_of(tier, 400, 3000)):
+        # actuator wrapper
+        evs = []
+        t = 0
+        for _ in range(rng.randint(2, 32)):
+            r = rng.random()
+            t += rng.randint(1, 10 ** 6)
+            if r < 0.2: evs.append("xs:" + datum_state(rng, t))
+            elif r < 0.35: evs.append("xc:" + datum_cmd(rng, t))
+            elif r < 0.42: evs.append("ws:" + datum_state(rng, t))
+            elif r < 0.48: evs.append("wc:" + datum_cmd(rng, t))
+            elif r < 0.54: evs.append("acc:" + rng.choice(["ok", "ok", "E4"]))
+            elif r < 0.60: evs.append("iu:" + rng.choice(["ok", "ok", "E5"]))
+            elif r < 0.62: evs.append("dis")
+            else: evs.append("upd")
+        L.append("wr act " + " ".join(evs))
+        # encoder wrapper
+        evs = []
+        for _ in range(rng.randint(2, 32)):
+            r = rng.random()
+            t += rng.randint(1, 10 ** 6)
+            if r < 0.35: evs.append("gs:" + rng.choice([out_some(t, mkstate(rng)), out_some(t, mkstate(rng)), "N", "E1", "E2"]))
+            elif r < 0.45: evs.append("iu:" + rng.choice(["ok", "ok", "E5"]))
+            elif r < 0.52: evs.append("xs:" + datum_state(rng, t))
+            elif r < 0.57: evs.append("xc:" + datum_cmd(rng, t))
+            else: evs.append("upd")
+        L.append("wr enc " + " ".join(evs))
+        # PID wrapper
+        evs = []
+        t = rng.randint(0, 10 ** 9)
+        for _ in range(rng.randint(2, 32)):
+            r = rng.random()
+            t += log_dt(rng, 1_000, 10 ** 10)
+            if r < 0.3: evs.append("xs:" + datum_state(rng, t))
+            elif r < 0.42: evs.append("xc:" + datum_cmd(rng, t))
+            elif r < 0.47: evs.append("ws:" + datum_state(rng, t))
+            elif r < 0.50: evs.append("wc:" + datum_cmd(rng, t))
+            elif r < 0.54: evs.append("acc:" + rng.choice(["ok", "ok", "E4"]))
+            elif r < 0.58: evs.append("iu:" + rng.choice(["ok", "ok", "E5"]))
+            elif r < 0.62: evs.append("lr")
+            elif r < 0.63: evs.append("dis")
+            else: evs.append("upd")
+        L.append("wr pid %d %s %s%s %s %s" % (rng.randint(-10 ** 6, 10 ** 6), mkstate(rng), rng.choice("PVA"), mkf(rng), K9(rng), " ".join(evs)))
+    return L
+
+
+# =========================================================================== C15
+def gen_C15(rng, tier):
+    L = []
+    for _ in range(n_of(tier, 600, 5000)):
+        evs = []
+        for _ in range(rng.randint(2, 40)):
+            r = rng.random()
+            if r < 0.25: evs.append("set:" + mkf(rng))
+            elif r < 0.35: evs.append("acc:" + rng.choice(["ok", "ok", "E7", "E8"]))
+            elif r < 0.50: evs.append("lr")
+            elif r < 0.58: evs.append("fol")
+            elif r < 0.63: evs.append("unfol")
+            elif r < 0.78: evs.append("gs:" + rng.choice([out_some(rng.randint(-9, 9), mkf(rng)), out_some(1, mkf(rng)), "N", "E1", "E2"]))
+            else: evs.append("upd")
+        L.append("se rec " + " ".join(evs))
+        evs = []
+        for _ in range(rng.randint(2, 40)):
+            r = rng.random()
+            if r < 0.2: evs.append("clk:" + rng.choice(["T:%d" % rng.randint(-10 ** 12, 10 ** 12), "T:%d" % rng.randint(-9, 9), "E3"]))
+            elif r < 0.45: evs.append("get")
+            elif r < 0.55: evs.append("set:" + mkf(rng))
+            elif r < 0.65: evs.append("lr")
+            elif r < 0.72: evs.append("fol")
+            elif r < 0.76: evs.append("unfol")
+            elif r < 0.88: evs.append("gs:" + rng.choice([out_some(rng.randint(-9, 9), mkf(rng)), "N", "E1"]))
+            else: evs.append("upd")
+        L.append("se cg %s %s %s" % (mkf(rng), rng.choice(["T:%d" % rng.randint(-99, 99), "E3"]), " ".join(evs)))
+        lo = rng.choice([0, 0, -100, 50, rng.randint(-10 ** 6, 10 ** 6)])
+        ctor = rng.choice(["nodelta", "zero", "start:%d" % rng.randint(-1000, 1000), "delta:%d" % rng.randint(-1000, 1000)])
+        clk0 = rng.choice(["T:%d" % rng.randint(-10 ** 6, 10 ** 6), "T:%d" % rng.randint(-10 ** 6, 10 ** 6), "E3"])
+        evs = []
+        now = rng.randint(-10 ** 6, 10 ** 6)
+        for _ in range(rng.randint(2, 40)):
+            r = rng.random()
+            if r < 0.3:
+                now += rng.randint(0, 10 ** 5)
+                evs.append("clk:" + rng.choice(["T:%d" % now, "T:%d" % now, "T:%d" % now, "E2"]))
+            elif r < 0.65: evs.append("get")
+            elif r < 0.78: evs.append("sd:%d" % rng.randint(-10 ** 6, 10 ** 6))
+            elif r < 0.92: evs.append("st:%d" % rng.randint(-10 ** 6, 10 ** 6))
+            else: evs.append("upd")
+        L.append("se gfh %d %s %s %s" % (lo, ctor, clk0, " ".join(evs)))
+    for ci in CATS_F:
+        L.append("st tgfg f %s" % mk_out(rng, ci, rng.randint(-99, 99)))
+        for ct in ["T:5", "E1"]:
+            L.append("st const f %s %s" % (ct, mkf(rng)))
+    return L
+
+
+# =========================================================================== C16 (scratch arrays, poisoned by cfg(rrtk_verif))
+def gen_C16(rng, tier):
+    L = []
+    for name in ["sum", "prod"]:
+        for n in range(1, 9):
+            for mask in range(2 ** n):
+                ins = [out_some(rng.randint(1, 9), rand_f(rng, -4, 4)) if (mask >> i) & 1 else "N" for i in range(n)]
+                L.append("st %s f %d %s" % (name, n, " ".join(ins)))
+                if n <= 4:
+                    insq = [out_some(rng.randint(1, 9), q(rand_f(rng, -4, 4), 1, 0)) if (mask >> i) & 1 else "N" for i in range(n)]
+                    L.append("st %s q %d %s" % (name, n, " ".join(insq)))
+    for so in (0, 1):
+        for sp in (0, 1):
+            for connected in (0, 1):
+                ops = ["c:0:1"] if connected else []
+                if so: ops.append("ss:0:%s" % datum_state(rng, 5))
+                if sp: ops.append("ss:1:%s" % datum_state(rng, 7))
+                L.append("dv free:2 -- %s" % " ".join(ops + ["ra"]))
+    for n in range(0, 9):
+        L.append("dv axle:%d -- ra oa u:0 ra" % n)
+        if n >= 1:
+            L.append("dv axle:%d -- ss:%d:%s sc:%d:%s u:0 oa ra" % (n, n - 1, datum_state(rng, 3), 0, datum_cmd(rng, 4)))
+    return L
+
+
+# =========================================================================== C17
+def gen_C17(rng, tier):
+    L = []
+    for v in ["ptr", "rc", "prw", "pmx", "arw", "amx"]:
+        can_dyn = v in ("ptr", "rc", "prw")
+        for _ in range(n_of(tier, 150, 1500)):
+            handles = [True]
+            evs = []
+            for _ in range(rng.randint(1, 12)):
+                live = [i for i, a in enumerate(handles) if a]
+                if not live:
+                    evs.append("live"); break
+                r = rng.random()
+                h = rng.choice(live)
+                if r < 0.2:
+                    evs.append("cl:%d" % h); handles.append(True)
+                elif r < 0.35 and can_dyn:
+                    evs.append("dy:%d" % h); handles.append(True)
+                elif r < 0.55:
+                    evs.append("rd:%d" % h)
+                elif r < 0.7:
+                    evs.append("wr:%d:%d" % (h, rng.randint(-1000, 1000)))
+                elif r < 0.8:
+                    evs.append("inc:%d" % h)
+                elif r < 0.92:
+                    evs.append("dr:%d" % h); handles[h] = False
+                else:
+                    evs.append("live")
+            evs.append("live")
+            L.append("rf %s %s" % (v, " ".join(evs)))
+        L.append("rf %s dy:0 rd:1" % v)
+    for v in ["arw", "amx", "prw", "pmx"]:
+        for n in ([2, 4, 8] if tier == "quick" else [2, 3, 4, 5, 6, 7, 8]):
+            L.append("rf thr %s %d %d" % (v, n, n_of(tier, 1000, 100000)))
+    return L
+
+
+GENERATORS.update({"C06": gen_C06, "C07": gen_C07, "C08": gen_C08, "C09": gen_C09, "C13": gen_C13, "C15": gen_C15,
+                   "C16": gen_C16, "C17": gen_C17, "C20": gen_C20})
